@@ -9,7 +9,7 @@ from harness.impl import base
 from tangermeme import utils
 
 DTYPES = [torch.int8, torch.float32, torch.int64, torch.float64, torch.uint8, torch.int32, torch.float16, torch.bool]
-KEYS = ("op", "str", "alphabet", "ignore", "x", "comp", "xs", "size", "ov")
+KEYS = ("op", "str", "alphabet", "ignore", "x", "comp", "xs", "size", "ov", "longlen")
 
 
 def s2str(codes):
@@ -17,7 +17,7 @@ def s2str(codes):
 
 
 def run_call(c, variant):
-    ev = {k: c[k] for k in KEYS}
+    ev = {k: c.get(k, 0) for k in KEYS}
     ev.update(y=[], valid=True, variant=variant)
     op = c["op"]
     alpha = [chr(a) for a in c["alphabet"]]
@@ -65,6 +65,14 @@ def run_call(c, variant):
             cmap = {alpha[i]: alpha[c["comp"][i]] for i in range(A)}
             r = utils.reverse_complement(s2str(c["str"]), complement_map=cmap)
             ev["y"] = [ord(ch) for ch in r]
+        elif op == "unchunk_long":
+            Ln = c["longlen"]
+            x = torch.arange(Ln, dtype=torch.int64).unsqueeze(0)
+            ch = utils.chunk([x], size=c["size"], overlap=c["ov"])
+            un = utils.unchunk(ch, lengths=[Ln], overlap=c["ov"])
+            got = un[0]
+            ev["y"] = [int(ch.shape[0]), int(got.shape[-1]), int(bool(got.ndim == 2 and torch.equal(got[0], x[0, :got.shape[-1]])))]
+            del x, ch, un, got
         elif op in ("chunk", "unchunk"):
             dtype = [torch.int64, torch.float32, torch.float64, torch.int32][variant % 4]
             nout = 1 + (variant // 4) % 2      # n_outputs axis: rows carry id and id+50000*row
@@ -177,7 +185,22 @@ def handler(case):
         return out
     if mode == "m2":
         rng = random.Random(case["seed"])
-        return {"events": [run_call(gen_call(rng), rng.randrange(1000)) for _ in range(case["n"])]}
+        evs = []
+        for _ in range(case["n"]):
+            c = gen_call(rng)
+            evs.append(run_call(c, rng.randrange(1000)))
+            if c["op"] in ("encode", "roundtrip") and len(c["ignore"]) > 1 and rng.random() < 0.5:
+                # the same alphabet again with a SMALLER ignore set and a string that uses a character ignored before: must be rejected
+                t = dict(c); t["ignore"] = c["ignore"][:1]
+                t["str"] = list(c["str"][:5]) + [c["ignore"][-1]]
+                if t["ignore"][0] != c["ignore"][-1] and c["ignore"][-1] not in c["alphabet"]:
+                    evs.append(run_call(t, rng.randrange(1000)))
+        if case.get("long") and case["id"] == 0:
+            # chromosome-scale sequences: lengths beyond 2^24 (float32 cannot count them)
+            for Ln, size, ov in [(16777333, 40, 1), (16777259, 50, 7), (33554467, 64, 0)][:case["long"]]:
+                c = dict(op="unchunk_long", str=[], alphabet=[], ignore=[], x=[], comp=[], xs=[], size=size, ov=ov, longlen=Ln)
+                evs.append(run_call(c, 0))
+        return {"events": evs}
     if mode == "ev":
         return {"ev": run_call(case["call"], case.get("variant", 0))}
 
